@@ -128,8 +128,12 @@ func main() {
 		"(consecutive log indices), as the Raft group does with proposals that arrive together (scripts above 50k schedules and the quick-tier 3x2 selection are sampled with the seeded PRNG, exhaustive=false); " +
 		"a schedule is non-trivial when one node's read falls between another node's read and that node's write (overlapping read→write windows); " +
 		"distinct by hash of (script, interleaving signature)")
-	r.Assume("inside a group-commit batch each entry is judged at its position in the log; the record between two entries of one Update call is what the "+
-		"acknowledged entries so far produced (checked against the store at the end of the batch)",
+	r.Assume("replicated-log part: three real kv.LFSM replicas fed from one agreed log by the driver (single entries for the proposer, one apply batch for a replica that catches up, "+
+		"RecoverFromSnapshot on the live state machine when the log was compacted past it, fresh state machine + own snapshot + own log on restart), managers read their local replica and are told "+
+		"their local replica's result; calls are atomic there; scenarios = every [<=1-2 calls] / one replica away / [<=1-2 calls by the others] / snapshot+compact or not / back by resume or "+
+		"restart / [<=2 calls], plus seeded random mixes; non-trivial = a snapshot is installed on a replica whose lease record differs from the snapshot's",
+		"inside a group-commit batch each entry is judged at its position in the log; the record between two entries of one Update call is what the "+
+			"acknowledged entries so far produced (checked against the store at the end of the batch)",
 		"lease expiry is decided from the durations used (+1h = unexpired for the whole run, -1h = expired when written), never from the clock",
 		"a read served by a lagging replica is modelled as an earlier read (reads and writes of a call are separate scheduling steps)",
 		"3 nodes x 2 calls, thorough tier: scripts that differ only by a renaming of the nodes (the managers differ in nothing but their NodeID, which is only compared for equality) "+
@@ -180,6 +184,11 @@ func main() {
 	explore(r, fams)
 	fmt.Printf("C15 exploration took %.1fs\n", time.Since(t0).Seconds())
 
+	// three replicas of the metadata state machine on one agreed log, catch-up by snapshot
+	t0 = time.Now()
+	runReplicas(r)
+	fmt.Printf("C15 replicated log took %.1fs\n", time.Since(t0).Seconds())
+
 	// stress over a real RaftStore
 	t0 = time.Now()
 	runStress(r, r.Seed, r.Pick(500, 3000), 3)
@@ -197,6 +206,10 @@ func main() {
 	r.FloorCount("stress_lease_ok_takeover_expired", int64(r.Pick(4, 40)))
 	r.FloorCount("stress_return_ok_own", int64(r.Pick(30, 400)))
 	r.FloorCount("stress_race_rounds", int64(r.Pick(300, 3000)))
+	r.FloorCount("replicas_scenarios", int64(r.Pick(20_000, 500_000)))
+	r.FloorCount("replicas_snapshot_catchups", int64(r.Pick(5000, 100_000)))
+	r.FloorCount("replicas_scenarios_snapshot_over_different_record", int64(r.Pick(2000, 50_000)))
+	r.FloorCount("replicas_lease_ok_takeover_expired", int64(r.Pick(1000, 20_000)))
 	r.Finish()
 }
 
@@ -432,6 +445,8 @@ func replay(r *ev.Run) {
 			fd := found{violation: v, Script: w.Calls.String(), Calls: w.Calls, Schedule: rr.schedule(), Steps: rr.steps(), Outcomes: rr.outcomeString()}
 			r.Violation(v.Sig, v.What, witness{Mode: "schedule", found: fd})
 		}
+	case "replicas":
+		replayReplicas(r, w.found.Steps)
 	case "stress":
 		// schedule-dependent: re-run the same workload (same seed) and report what it shows
 		for i := 0; i < 3 && r.Violations() == 0; i++ {
